@@ -242,7 +242,7 @@ def trap_nodes(read):
     return out
 
 
-def gen_layered_world(rng, i, two_layer=None, want_files=True, small=False, allow_refuse=True, allow_nosuffix=True, allow_repeat=False, allow_dotdot=False):
+def gen_layered_world(rng, i, two_layer=None, want_files=True, small=False, allow_refuse=True, allow_nosuffix=True, allow_repeat=False, allow_dotdot=False, allow_join=False):
     """Generates a tree of DESIGN.md 5.3 plus the parameters of one layered read."""
     read = {"delim": "=", "comment": "#", "opts": {}}
     R = "$ROOT"
@@ -443,6 +443,16 @@ def gen_layered_world(rng, i, two_layer=None, want_files=True, small=False, allo
             n["delim"] = dch
             if rng.chance(0.1):
                 n["nonl"] = True          # the last line of the file has no newline
+            if allow_join and read["opts"].get("extra") == ["JOIN_SAME_ENTRIES=1"] and not read.get("repeated_layer") and n.get("entries") and rng.chance(0.6):
+                # the option is in force for EVERY file of the read: a key that a file gives twice carries both texts.
+                # (The key is the file's own: what a merge makes of a joined key that ANOTHER file also defines is not
+                #  covered by any property - the library keeps the second line as an entry of its own.)
+                s_ = rng.pick(n["entries"])[0]
+                idx = nodes.index(n)
+                k_, v_, v2 = "jj%d" % idx, "d%d" % idx, "j%d" % rng.randrange(100)
+                last = max(i_ for i_, x in enumerate(n["entries"]) if x[0] == s_)
+                n["entries"].insert(last + 1, [s_, k_, v_ + "\n" + v2])
+                n["split"] = [s_, k_, v_, v2]
             if rng.chance(0.12):
                 # section headers without any live key (all keys commented out): they carry nothing
                 n["empty_secs"] = rng.subset(SECS + ["Z"], 1, 2)
@@ -472,6 +482,22 @@ def gen_layered_world(rng, i, two_layer=None, want_files=True, small=False, allo
     return {"kind": "layered", "read": read, "nodes": nodes, "cfg": cfg}
 
 
+def split_entries(n):
+    """entries as the file spells them: a key whose text was joined from two lines (JOIN_SAME_ENTRIES) is given twice,
+    the second time at the end of its section"""
+    ents = [tuple(x) for x in n.get("entries", [])]
+    sp = n.get("split")
+    if sp:
+        s_, k_, v1, v2 = sp
+        for j, e in enumerate(ents):
+            if e[0] == s_ and e[1] == k_ and e[2] == v1 + "\n" + v2:
+                ents[j] = (s_, k_, v1)
+                last = max(i for i, x in enumerate(ents) if x[0] == s_)
+                ents.insert(last + 1, (s_, k_, v2))
+                break
+    return ents
+
+
 def tree_plan(nodes):
     out = []
     via = {n["p"]: n["via"] for n in nodes if n.get("via")}
@@ -487,7 +513,7 @@ def tree_plan(nodes):
                 e["p"] = target + n["p"][len(d_):]       # physically behind the directory link
                 break
         if n["t"] == "f":
-            e["c"] = n["c"] if "c" in n else render_plain([tuple(x) for x in n.get("entries", [])], n.get("delim", "="), n.get("pad", ""))
+            e["c"] = n["c"] if "c" in n else render_plain(split_entries(n), n.get("delim", "="), n.get("pad", ""))
             if "c" not in n and n.get("empty_secs"):
                 # key-less headers: one block before the first real section, the rest at the end of the file
                 lines = e["c"].split("\n")
